@@ -62,6 +62,7 @@ structure Event (L τ α ι ε : Type) where
 inductive Outcome (ε ρ : Type) where
   | ok (r : ρ)
   | err (e : ε)
+  deriving DecidableEq
 
 /-- external code: `Memoizable::construct` for every formatter type, over an abstract world `σ` -/
 structure Ext (σ L τ α ι ε : Type) where
